@@ -324,6 +324,78 @@ def eval_equal(module_text, old_expr, new_expr):
     return True, results[0] == results[1], "%s vs %s" % (results[0], results[1])
 
 
+_ADDR = re.compile(r"0x[0-9a-fA-F]+")
+
+
+def changed_function_behaviour(old_text, new_text, limit_s=5):
+    """Run-time oracle for fixes that must not change what a function does (yield batching): every
+    module-level function whose tree differs between the two texts is CALLED with its defaults in
+    both modules; outcome (returned value or exception type), printed text and the multiset of logged
+    helper calls must agree.  Returns (n_compared, problem or None)."""
+    import contextlib
+    import io
+    import signal
+    import threading
+    import warnings
+
+    try:
+        old_tree, new_tree = ast.parse(_nobom(old_text)), ast.parse(_nobom(new_text))
+    except SyntaxError:
+        return 0, None
+    old_f = {n.name: ast.dump(n) for n in old_tree.body if isinstance(n, ast.FunctionDef)}
+    new_f = {n.name: ast.dump(n) for n in new_tree.body if isinstance(n, ast.FunctionDef)}
+    names = sorted(n for n in old_f if n in new_f and old_f[n] != new_f[n])
+    if not names:
+        return 0, None
+
+    class _Timeout(BaseException):
+        pass
+
+    def on_alarm(signum, frame):
+        raise _Timeout()
+
+    can_alarm = threading.current_thread() is threading.main_thread()
+    outcomes = []
+    for text in (old_text, new_text):
+        res = {}
+        glob = {"__name__": "c16_oracle_module"}
+        buf = io.StringIO()
+        prev = signal.signal(signal.SIGALRM, on_alarm) if can_alarm else None
+        try:
+            if can_alarm:
+                signal.alarm(limit_s)
+            with warnings.catch_warnings(), contextlib.redirect_stdout(buf), contextlib.redirect_stderr(io.StringIO()):
+                warnings.simplefilter("ignore")
+                try:
+                    exec(compile(_nobom(text), "<c16-oracle>", "exec", dont_inherit=True), glob)
+                except _Timeout:
+                    return 0, None
+                except BaseException as e:
+                    return 0, None
+                for name in names:
+                    calls = glob.get("CALLS")
+                    if isinstance(calls, list):
+                        del calls[:]
+                    buf.seek(0)
+                    buf.truncate()
+                    try:
+                        out = ("returned", repr(glob[name]()))
+                    except _Timeout:
+                        return 0, None
+                    except BaseException as e:
+                        out = ("raised", type(e).__name__)
+                    res[name] = ((out[0], _ADDR.sub("0x?", out[1])), _ADDR.sub("0x?", buf.getvalue()), sorted(map(repr, calls)) if isinstance(calls, list) else None)
+        finally:
+            if can_alarm:
+                signal.alarm(0)
+                signal.signal(signal.SIGALRM, prev)
+        outcomes.append(res)
+    for name in names:
+        if outcomes[0][name] != outcomes[1][name]:
+            return len(names), "%s() behaves differently after the fix: %r -> %r" % (name, outcomes[0][name][:2], outcomes[1][name][:2])
+    return len(names), None
+
+
 # ---------------------------------------------------------------------------------------
 # cause classifiers: signatures computed from the failing input itself
 
@@ -377,7 +449,8 @@ def nested_yield_on_lines(text, linenos):
     for stmt in ast.walk(tree):
         if not isinstance(stmt, ast.stmt) or stmt.lineno not in lineset:
             continue
-        direct = getattr(stmt, "value", None)
+        # `x += yield t` and `return (yield t)` need the hoisting step as well
+        direct = getattr(stmt, "value", None) if isinstance(stmt, (ast.Assign, ast.AnnAssign, ast.Expr)) else None
         for node in ast.walk(stmt):
             if isinstance(node, ast.Yield) and node is not direct and not isinstance(stmt, (ast.FunctionDef, ast.AsyncFunctionDef, ast.If, ast.For, ast.While, ast.With, ast.Try)):
                 return True
@@ -554,6 +627,10 @@ class Judge:
             old_text = pend["before"][name]
             targets = [d for d in P if d["file"] == name and d["desc"] == desc and d["line"] is not None and dels[0] <= d["line"] <= dels[-1]]
             if not targets:
+                # the yield-batching fix that moves the FIRST yield down next to the second rewrites the
+                # lines up to, but not including, the line of the yield the diagnostic is reported on
+                targets = [d for d in P if d["file"] == name and d["desc"] == desc and d["line"] == dels[-1] + 1 and d["code"] in ASYNQ_MERGE]
+            if not targets:
                 self.stats["phantom_target_skipped"] += 1
                 continue
             code = targets[0]["code"]
@@ -613,6 +690,16 @@ class Judge:
         # S3: strictly fewer diagnostics with this code+description
         n_old = sum(1 for d in Pf if d["code"] == code and d["desc"] == desc)
         n_new = sum(1 for d in P2f if d["code"] == code and d["desc"] == desc)
+        behaviour_checked = False
+        if code in ASYNQ_MERGE and not line_has_semicolon_stmts(old_text, dels[0]):
+            # whatever else a yield-batching step does (hoist, move, merge - also the intermediate
+            # steps recorded as C16-K5): the function it rewrites must keep doing what it did
+            behaviour_checked = True
+            n_called, behaviour = changed_function_behaviour(old_text, new_text)
+            self.stats["S4_yield_fix_functions_called"] += n_called
+            if behaviour:
+                self.add("S4", step, "autofix:%s:function-behaves-differently" % code, "%s: %s" % (name, behaviour), file=name, before=old_text, after=new_text)
+                return
         if n_new >= n_old:
             sig = "diagnostic-still-reported"
             if code in ASYNQ_MERGE:
@@ -692,6 +779,11 @@ class Judge:
         except SyntaxError:
             return
         if code in ASYNQ_MERGE:
+            n_called, behaviour = (0, None) if behaviour_checked else changed_function_behaviour(old_text, new_text)
+            self.stats["S4_yield_fix_functions_called"] += n_called
+            if behaviour:
+                fail("autofix:%s:function-behaves-differently" % code, "%s: %s" % (name, behaviour), file=name, before=old_text, after=new_text)
+                return
             problem = yield_merge_preserved(old_text, new_text)
             if problem:
                 fail("autofix:%s:bindings-not-preserved" % code, "%s: %s" % (name, problem), file=name, before=old_text, after=new_text)
